@@ -18,10 +18,10 @@ from rig import Infra
 META = {
     "title": "Markdown link destination rewriting",
     "engine": "LinkDest",
-    "technique": "TLA+ reference (documents built from self-delimiting blocks whose link-destination spans are known by construction; RFC 3986-style Rewrite; CommonMark backslash unescape) + implementation-shaped model of the line scanner of cmd/scriggo/linkdestination.go and of mdescape.go, model-checked by TLC over every block sequence; every document replayed into the real linkDestinationReplacer.replace (once and twice) through a -tags verif test file in cmd/scriggo; outputs judged by a TLC Trace spec",
+    "technique": "TLA+ reference (documents built from self-delimiting blocks whose link-destination spans are known by construction; fence documents whose code/link classification is computed from the CommonMark 4.5 fence rules; query documents whose destination is a CommonMark-escaped punctuation string; RFC 3986-style Rewrite; CommonMark backslash unescape; well-formed destination) + implementation-shaped model of the line scanner of cmd/scriggo/linkdestination.go and of mdescape.go, model-checked by TLC over every block sequence and every fence-line sequence; every document replayed into the real linkDestinationReplacer.replace (once and twice) through a -tags verif test file in cmd/scriggo; outputs judged by a TLC Trace spec",
     "level": "model_checking",
-    "level_text": "TLC explores every document made of <=2 blocks over all 55 block kinds and <=3 (quick) / <=4 (thorough) blocks over the 16 core kinds (inline links in 8 spellings, reference definitions, images, headings/list items/block quotes, code spans, backquote and tilde fences with longer closing fence / shorter fence inside / info string, indented code, HTML blocks / raw-text elements with upper-case end tag / <pre> / comments, absolute / mailto / fragment / query / dot / extension-less / trailing-slash / root / scheme-relative destinations, plus stress kinds: autolink, unclosed HTML, multi-line code span and link text, fence in a block quote, 4-space nested list, unbalanced backquote) and checks that the transcribed scanner (inFence, htmlState stack/rawTag/rawCloser, codeSpanLen, link-stack depth) rewrites exactly the ground-truth spans and that its Rewrite meets the RFC 3986-style reference; TLC exports the same documents with their spans; the real replace() is run on each document (and on its own output) and the TLA+ Trace spec decides: bytes outside real destinations unchanged, code/HTML/non-link destinations untouched, absolute/fragment/query destinations kept, every relative destination rewritten to a URL under the base, idempotent; markdownUnescape(markdownURLEscape(u)) = u for every string of <=3/<=5 bytes over a 9-symbol punctuation alphabet.",
-    "level_note": "Trusted: TLC, the Json module, the ~200-line Go test file that only calls the functions and logs (goldmark's link destinations are logged only when a violation is being confirmed - oracle guard), python glue that copies files and counts. 'What is a link' is decided by construction for the generated block kinds, not for CommonMark as a whole: container nesting beyond one block quote / one nested list, setext headings, link reference definitions spanning lines, entity references inside destinations, tabs, CRLF and non-ASCII text are not generated. Exact spelling of the rewritten URL (.html -> .md, percent-encoding) is compared with the implementation-shaped model only (model_drift, diagnostic); the property-level clause is 'absolute, under the base'.",
+    "level_text": "TLC explores every document made of <=2 blocks over all 57 block kinds and <=3 (quick) / <=4 (thorough) blocks over the 16 core kinds (inline links in 8 spellings, reference definitions, images, headings/list items/block quotes, code spans, backquote and tilde fences with longer closing fence / shorter fence inside / info string / a fence line with an info string inside, indented code, HTML blocks / raw-text elements with upper-case end tag / <pre> / comments, absolute / mailto / fragment / query / dot / extension-less / trailing-slash / root / scheme-relative destinations, plus stress kinds: autolink, unclosed HTML, multi-line code span and link text, fence in a block quote, 4-space nested list, unbalanced backquote) and every fence document of <=3 fence lines over {backquote, tilde} x run length {3,4} x 4 (quick) / 6 (thorough) variants (plain, trailing spaces, info string, indented by 4, indented by 3, space + info string) with a link line after each fence line, and checks that the transcribed scanner (inFence, htmlState stack/rawTag/rawCloser, codeSpanLen, link-stack depth) rewrites exactly the ground-truth spans (for fence documents: the spans the CommonMark 4.5 opening/closing-fence rules leave outside code) and that its Rewrite meets the RFC 3986-style reference; TLC exports the same documents with their spans, plus 4228 query documents ([a](p1/q?k S v) for every string S of <=2 bytes over the ASCII punctuation without '%' and a letter, bare and between angle brackets, every punctuation byte escaped or only \\ ( ) < > escaped); the real replace() is run on each document (and on its own output) and the TLA+ Trace spec decides: bytes outside real destinations unchanged, code/HTML/non-link destinations untouched, absolute/fragment/query destinations kept, every relative destination rewritten to a URL under the base that is still a CommonMark destination and, read back with the CommonMark unescape, has the source's query and fragment, idempotent; markdownUnescape(markdownURLEscape(u)) = u for every string of <=3/<=5 bytes over a 9-symbol punctuation alphabet and every string of <=2/<=3 bytes over all 32 ASCII punctuation bytes, a letter and a space.",
+    "level_note": "Trusted: TLC, the Json module, the ~200-line Go test file that only calls the functions and logs (goldmark's link destinations are logged only when a violation is being confirmed - oracle guard), python glue that copies files and counts. 'What is a link' is decided by construction for the generated block kinds, not for CommonMark as a whole: container nesting beyond one block quote / one nested list, fences inside containers other than that block quote, fence lines with tabs, setext headings, link reference definitions spanning lines, entity references inside destinations, tabs, CRLF and non-ASCII text are not generated. Exact spelling of the rewritten URL (.html -> .md, percent-encoding) is compared with the implementation-shaped model only (model_drift, diagnostic); the property-level clauses are 'absolute, under the base', 'query and fragment kept modulo percent-encoding' (RFC 3986 5.2.2) and 'still a destination' (CommonMark 6.3). Destinations whose query/fragment has '%', a space or a non-ASCII byte are ref_undefined. The output is not parsed by goldmark (the hook logs goldmark's reading of the source only).",
     "design_ref": "7/C29",
 }
 
@@ -154,9 +154,18 @@ EXCUSED = ["codespan_inner_run", "autolink", "html_unclosed", "codespan_ml", "li
 
 # Genuine defects demonstrated by this check on the unchanged tree (each confirmed by goldmark on the violation
 # path); minimal documents, code locations and proposed repairs are in the C29 report.
-PROPOSED_KNOWN = []   # three of the eight defects found by this check were fixed in /repo (autolink, html_unclosed, codespan_inner_run: the
-# implementation-shaped model still transcribes the code BEFORE those fixes, so they stay in EXCUSED and show as model drift);
-# the other five are known findings (known-findings.json)
+# Three of the eight defects found by the first version of this check were fixed in /repo (autolink, html_unclosed,
+# codespan_inner_run: the implementation-shaped model still transcribes the code BEFORE those fixes, so they stay in EXCUSED and
+# show as model drift); the other five are known findings (known-findings.json).
+# The query documents (every punctuation string in a query, CommonMark-escaped) exposed two more, confirmed with goldmark:
+#  (1) isMarkdownEscapable (mdescape.go) lists 21 of the 32 ASCII punctuation characters CommonMark lets a backslash escape;
+#      for the other ones markdownUnescape keeps the backslash of \c (so `[a](a\,b.html)` becomes .../a%5C,b.md and
+#      `[a](q?k\#\"v)` gets the fragment %5C%22v) and markdownURLEscape does not double a backslash before c (so `[a](q?k\\"v)`,
+#      which denotes q?k\"v, is written ...q.md?k\"v, which denotes q.md?k"v);
+#  (2) markdownURLEscape protects backslashes only: an unbalanced parenthesis of the query that was escaped in the source is
+#      written bare (`[a](q?k\(v)` -> `[a](https://.../q.md?k(v)`, not a link any more), and so are '<' and '>' inside <...>.
+_NOT_LISTED = {34: '"', 36: "$", 39: "'", 44: ",", 47: "/", 58: ":", 59: ";", 63: "?", 64: "@", 94: "^"}   # ('%' is not generated)
+PROPOSED_KNOWN = []   # integrated into known-findings.json
 
 
 def consts(ctx):
@@ -217,7 +226,7 @@ def judge(ctx, step, obs_path, mode="judge"):
     (python only splits lines and merges the per-signature lists).  Returns one record per distinct signature:
     {k (1-based index of the first observation having it), id, sig, n (observations sharing it), nbad (total)}."""
     lines = Path(obs_path).read_text().splitlines(keepends=True)
-    nsh = max(1, min(6, len(lines) // 12000))
+    nsh = max(1, min(6, len(lines) // 2500))
     if nsh == 1:
         return rig.trace_judge(ctx, step, FAMS, "Trace_LinkDest", obs_path, consts={"Mode": mode})[0]
     size = (len(lines) + nsh - 1) // nsh
@@ -308,6 +317,20 @@ def corruptions(accepted):
             e["unesc"] = e["unesc"] + [92]
             out.append((e, {"esc-roundtrip"}))
             break
+    # 8. the query of a rewritten destination altered
+    o = pick(lambda o: len(o["spans"]) == 1 and o["spans"][0]["c"] == "rel" and 63 in o["src"][o["spans"][0]["s"]:o["spans"][0]["e"]]
+             and 35 not in o["src"] and 63 in o["out"] and o["out"].index(63) + 1 < len(o["out"]) and chr(o["out"][o["out"].index(63) + 1]).isalpha())
+    if o:
+        o["out"][o["out"].index(63) + 1] ^= 1
+        o["out2"] = list(o["out"])
+        out.append((o, {"suffix-changed"}))
+    # 9. what is written is not a destination any more (unbalanced parenthesis)
+    o = pick(lambda o: len(o["spans"]) == 1 and o["spans"][0]["c"] == "rel" and o["spans"][0]["e"] == len(o["src"]) - 1
+             and o["src"][-1] == 41 and o["src"][o["spans"][0]["s"] - 1] == 40 and o["out"] != o["src"])
+    if o:
+        o["out"] = o["out"][:-1] + [40, 41]
+        o["out2"] = list(o["out"])
+        out.append((o, {"dest-broken"}))
     for i, (o, _) in enumerate(out):
         o["id"] = 900000001 + i
         if o["k"] == "doc":     # keeps the signatures of the falsified copies apart from those of real findings
@@ -391,6 +414,8 @@ def run(ctx, replay_case=None):
     docs = [o for o in allobs if o["k"] == "doc"]
     ctx.cov.update(evaluations=len(allobs), traces_validated_against_impl=len(allobs),
                    documents=len(docs), escape_strings=len(allobs) - len(docs),
+                   fence_documents=sum(1 for o in docs if o["kinds"][0].startswith("fl_")),
+                   query_documents=sum(1 for o in docs if o["kinds"] == ["query_escape"]),
                    distinct_nontrivial=len({json.dumps([o.get("src"), o.get("base"), o.get("dir"), o.get("u")]) for o in allobs if nontrivial(o)}),
                    rule="every block sequence within the bounds and every escape string, exported by TLC (exhaustive, seed-independent); a document is "
                         "non-trivial when the real replace() changed at least one byte, an escape string when escaping changed it",
@@ -438,7 +463,7 @@ def run(ctx, replay_case=None):
             if any(b["sig"]["cause"] == "esc-roundtrip" and b["id"] < 900000001 for b in b2):
                 nrej, got = nrej + 1, got | {"esc-roundtrip"}       # merged with a real finding of the same signature
             ctx.cov["sensitivity_selftest"] = {"corrupted": len(st), "rejected": nrej, "causes": sorted(got)}
-            if len(st) < 7 or nrej < len(st) or not want <= got:
+            if len(st) < 9 or nrej < len(st) or not want <= got:
                 raise Infra(f"sensitivity self-test failed: {len(st)} corrupted observations, {nrej} rejected, causes {sorted(got)} (wanted {sorted(want)})")
     if dfut is not None:
         drift = dfut.result()
@@ -448,10 +473,12 @@ def run(ctx, replay_case=None):
     if mcfut is not None:
         r = mcfut.result()
         ctx.cov.update(states=r.distinct, transitions=r.generated, mc_wall_s=round(r.wall, 1),
-                       mc_invariants=MC_INVS + ["TableConsistent", "RewriteAllCfgs", "EscPairModel"],
+                       mc_invariants=MC_INVS + ["TableConsistent", "RewriteAllCfgs", "EscPairModel", "SpellingsDenote"],
                        bounds=f"documents of <= {K['AllLen']} blocks over all {len(KINDS)} block kinds and <= {K['CoreLen']} blocks over the "
                               f"{sum(1 for k in KINDS if k[1])} core kinds (base https://example.com/base/, dir docs/sub); every single block under 4 base/dir "
-                              f"configurations; escape pair: strings of <= {K['EscLen']} bytes over 9 symbols",
+                              f"configurations; fence documents of <= {K['FenceLen']} fence lines over 2 characters x runs {sorted(K['FenceRuns'])} x "
+                              f"{K['FenceVars']} variants; query documents: strings of <= {K['QLen']} bytes over 32 symbols x 4 spellings; "
+                              f"escape pair: strings of <= {K['EscLen']} bytes over 9 symbols and of <= {K['EscWideLen']} bytes over 34 symbols",
                        model_excused_kinds=EXCUSED)
         if not r.ok:
             if r.invariant_violated:
